@@ -234,21 +234,30 @@ def run_cfg(ctx, p, cfg):
                 r.require(not any(c.block in rr for c in a.calls() if c.callee not in ("core::ops::try_trait::Try::branch",)), "silent-when-not-do_write", fn=a,
                           detail="no call at all on the do_write == false edge")
         # stream matches Target
-        top = None
+        tops = []
         for blk in b.blocks:
             if blk["term"]["k"] == "switch" and blk["id"] in b.reachable_blocks():
                 si = SwitchInfo(b, blk["id"])
                 d = strip(si.discr)
-                if d[0] == "discr" and deep_strip(d[1])[0] == "field" and deep_strip(d[1])[1] == ("param", 1):
-                    top = si
-                    break
-        if top is None:
+                if d[0] == "discr" and deep_strip(d[1])[0] == "field" and deep_strip(d[1])[1] == ("param", 1) and set((si.variants or {}).values()) == {"Stdout", "Stderr"}:
+                    tops.append(si)
+        if not tops:
             raise ShapeUnrecognised("no switch on the builder's target")
+
+        def arm(si, lab):
+            for l_, t_ in si.labelled_edges():
+                if l_ == lab or (isinstance(l_, tuple) and l_ and l_[0] == "otherwise" and lab in l_[1]):
+                    return t_
+            return None
         for lab, other in (("Stdout", "stderr"), ("Stderr", "stdout")):
-            t = top.target_of(lab)
-            oth = top.target_of("Stderr" if lab == "Stdout" else "Stdout")
-            region = b.reach(t, include_src=True) - b.reach(oth, include_src=True)
-            names = {(c.callee or "").rsplit("::", 1)[-1] for c in b.calls() if c.block in region}
+            names = set()
+            for top in tops:     # the target may be matched more than once (console writer first, plain stream as the fallback)
+                t = arm(top, lab)
+                oth = arm(top, "Stderr" if lab == "Stdout" else "Stdout")
+                if t is None or oth is None:
+                    raise ShapeUnrecognised("a match on the target without both arms")
+                region = b.reach(t, include_src=True) - b.reach(oth, include_src=True)
+                names |= {(c.callee or "").rsplit("::", 1)[-1] for c in b.calls() if c.block in region}
             r.require(lab.lower() in names and other not in names, "stream:%s" % lab, fn=b, detail="calls on the %s arm: %s" % (lab, sorted(names)))
 
     with ctx.rule("X4", "tty decision independent of colour", cfg) as r:
@@ -507,10 +516,35 @@ def run_cfg(ctx, p, cfg):
                         return None
                     out |= lv
             return out
+        def levels_via_flag(si, al):
+            """`let styled = match level { L1 => { set; true } .. _ => false }; ..; if styled { reset }`: the levels on whose
+            edges the tested flag was given the value this edge requires"""
+            labs = {si.label(v) for v, _ in al}
+            if not si.is_bool or labs not in ({True}, {False}):
+                return None
+            pl = si.t["discr"].get("copy") or si.t["discr"].get("move")
+            if not pl or pl["p"]:
+                return None
+            if any(st["k"] == "assign" and st["rv"]["k"] in ("ref", "rawptr") and st["rv"]["place"]["l"] == pl["l"] and (st["rv"].get("mut") or st["rv"]["k"] == "rawptr")
+                   for b_ in f.blocks for st in b_["stmts"]):
+                return None
+            rds = f.root_defs(pl["l"])
+            if not rds or not all(e[0] == "const" and e[1] == "bool" for b, e in rds):
+                return None
+            out = set()
+            for b, e in rds:
+                if e[2] is (True in labs):
+                    lv = level_labels(b)
+                    if lv is None:
+                        return None
+                    out |= lv
+            return out
         for c in hs:
             levels = level_labels(c.block) or set()
             for sb, si, al in f.conditions(c.block):
                 lv = levels_via_option(si, al)
+                if lv is None:
+                    lv = levels_via_flag(si, al)
                 if lv is not None:
                     levels = (levels & lv) if levels else lv
             is_reset = _is_plain_style(c.arg(1), f)
